@@ -199,22 +199,32 @@ def declOk (r : Except Err Unit) : Bool :=
 def spellJ (ty : PyType) (sp : Spelling) (v : Val F) (s : Str) (got : Except Err (Val F)) : Bool :=
   spellOk fo ty sp v s got && inOk got
 
-/-- `validate_value`: exact acceptance is demanded in strict mode only -/
-def validateJ (strict : Bool) (ty : PyType) (needTz : Bool) (d : DeclVals F) (v : Val F) (r : SetRes) : Bool :=
-  !strict || validateOk fo ty needTz d v r
+/-- values of a SUBCLASS of the declared class: a `bool` for an integer type, a `datetime` for `date`.
+    "Has the declared Python type" does not settle whether these are accepted (Python's `isinstance`
+    says yes, a library refusing them reads the text just as well), so acceptance of such a value is
+    not judged — only that, if it is refused, it is not stored -/
+def unsettled (ty : PyType) (v : Val F) : Bool :=
+  !v.exactType ty && v.isInstance ty
 
-/-- `sv.value = v`: strict — `setOk`; non-strict — a rejected value is not stored -/
+/-- `validate_value`: exact acceptance is demanded in strict mode only, and not for `unsettled` values -/
+def validateJ (strict : Bool) (ty : PyType) (needTz : Bool) (d : DeclVals F) (v : Val F) (r : SetRes) : Bool :=
+  !strict || (if unsettled ty v then r == .ok || r == .upnpValueError else validateOk fo ty needTz d v r)
+
+/-- `x.value = v` (state variable or argument): strict — `setOk`; non-strict or `unsettled` — a rejected
+    value is not stored -/
 def setJ (strict : Bool) (ty : PyType) (needTz : Bool) (d : DeclVals F) (v : Val F) (r : SetRes)
     (before after : Val F) : Bool :=
-  if strict then setOk fo ty needTz d v r before after else setKeeps v r before after
+  if strict && !unsettled ty v then setOk fo ty needTz d v r before after else setKeeps v r before after
 
-/-- `sv.upnp_value = s`: strict — `setUpnpOk`; non-strict — a rejected / unconvertible value is not stored -/
+/-- `sv.upnp_value = s`: strict — `setUpnpOk`; non-strict (or a converted value that is `unsettled`) — a
+    rejected / unconvertible value is not stored -/
 def setUpnpJ (strict : Bool) (ty : PyType) (needTz : Bool) (d : DeclVals F) (conv : Except Err (Val F)) (r : SetRes)
     (before after : Val F) : Bool :=
-  if strict then setUpnpOk fo ty needTz d conv r before after
-  else match conv with
-    | .ok v => setKeeps v r before after
-    | .error _ => after == before || after == .none
+  match conv with
+  | .ok v => if strict && !unsettled ty v then setUpnpOk fo ty needTz d conv r before after
+             else setKeeps v r before after
+  | .error _ => if strict then setUpnpOk fo ty needTz d conv r before after
+                else after == before || after == .none
 
 end
 end Upnp.C08
